@@ -993,7 +993,49 @@ fn ce_from(v: &Value) -> CE {
     CE::Int(0)
 }
 
+/// enumerators initialised from the enumerators of another enum (alias, or, and, xor, complement): the constant the
+/// target enumerator gets must be the value of the source expression in the source enum's underlying type, which is
+/// uint as soon as one enumerator does not fit int
+const ENUM_SPELLINGS: &[(&str, i128)] = &[("0", 0), ("1", 1), ("5", 5), ("-3", -3), ("2147483647", 2147483647), ("2147483648u", 2147483648), ("4294967295u", 4294967295), ("0x80000000u", 2147483648), ("7u", 7), ("-2147483647 - 1", -2147483648)];
+const ENUM_FORMS: &[&str] = &["S1", "S0", "S0 | S1", "S0 & S1", "S0 ^ S1", "~S1"];
+
+fn check_enum_alias(a: usize, b: usize, form: usize) -> Verdict {
+    let (ta, va) = ENUM_SPELLINGS[a % ENUM_SPELLINGS.len()];
+    let (tb, vb) = ENUM_SPELLINGS[b % ENUM_SPELLINGS.len()];
+    let f = ENUM_FORMS[form % ENUM_FORMS.len()];
+    let src = format!("enum Src {{ S0 = {}, S1 = {} }};\nenum Dst {{ D0 = {}, D1 }};\n", ta, tb, f);
+    // reference: the source enum is uint-backed when a value exceeds INT_MAX, int-backed otherwise; a negative value next to
+    // one above INT_MAX is rejected or wraps - not modelled
+    let unsigned = va > i32::MAX as i128 || vb > i32::MAX as i128;
+    if unsigned && (va < 0 || vb < 0) {
+        return Verdict::Skip("enum with negative and large values".into());
+    }
+    let mask = |x: i128| if unsigned { (x as u32) as i128 } else { (x as i32) as i128 };
+    let want = mask(match form % ENUM_FORMS.len() {
+        0 => vb,
+        1 => va,
+        2 => va | vb,
+        3 => va & vb,
+        4 => va ^ vb,
+        _ => !vb,
+    });
+    match hlsl_of(&src) {
+        Err(p) => Verdict::fail(format!("panic:{}", p), src),
+        Ok(Err(m)) => Verdict::Skip(format!("front end rejected: {}", normalise_panic(m.lines().next().unwrap_or("")))),
+        Ok(Ok(text)) => {
+            let got = int_after(&text, "D0 =");
+            if got != Some(want) {
+                return Verdict::fail("position:enumerator-from-enum", format!("D0 = {} should have the value {} ({} source enum) but the emitted text says {:?}\n--- source\n{}--- emitted\n{}", f, want, if unsigned { "uint-backed" } else { "int-backed" }, got, src, text));
+            }
+            Verdict::pass(Some(hash_of(&src)), vec!["pos_enumerator_from_enum".into(), if unsigned { "enum_uint_backed".into() } else { "enum_int_backed".into() }])
+        }
+    }
+}
+
 pub fn check_record(rec: &Value) -> Verdict {
+    if rec["kind"].as_str() == Some("enum_alias") {
+        return check_enum_alias(rec["a"].as_u64().unwrap_or(0) as usize, rec["b"].as_u64().unwrap_or(0) as usize, rec["form"].as_u64().unwrap_or(0) as usize);
+    }
     let e = ce_from(&rec["expr"]);
     let mut text = String::new();
     render_expr(&e, &mut text);
@@ -1001,11 +1043,16 @@ pub fn check_record(rec: &Value) -> Verdict {
 }
 
 pub fn run(ctx: &mut Ctx) {
-    ctx.rule = "Constant expression trees to depth 5 over unary + - ! ~, binary + - * / % << >> & | ^ && || < <= > >= == !=, casts between bool/int/uint/half/float/double/enum, sizeof, references to static const globals and enum values, with leaves from the boundary set (0, 1, -1, INT_MIN, INT_MAX, UINT_MAX, 31, 32, 2^31, 2^32, 2^63, 2^64-1, large/small floats) in every scalar type and as untyped literals. The value is read from the diagnostic of `assert_eval(e, sentinel)` and must equal the reference evaluation (type and value); it is then placed in static const / const local declarations of five types, array size, enum value with implicit successor, case label, template value argument and [numthreads], and read back from the emitted HLSL / stage metadata. Non-trivial = the reference evaluation wraps, masks a shift count, or crosses a type boundary. Distinct = expression text. The compiler declining to fold (\"not a constant expression\") is allowed and counted; division/modulus by zero must be declined; a panic is a violation.".into();
+    ctx.rule = "Constant expression trees to depth 5 over unary + - ! ~, binary + - * / % << >> & | ^ && || < <= > >= == !=, casts between bool/int/uint/half/float/double/enum, sizeof, references to static const globals and enum values, with leaves from the boundary set (0, 1, -1, INT_MIN, INT_MAX, UINT_MAX, 31, 32, 2^31, 2^32, 2^63, 2^64-1, large/small floats) in every scalar type and as untyped literals. The value is read from the diagnostic of `assert_eval(e, sentinel)` and must equal the reference evaluation (type and value); it is then placed in static const / const local declarations of five types, array size, enum value with implicit successor, case label, template value argument and [numthreads], and read back from the emitted HLSL / stage metadata. Exhaustively: enumerators initialised from the enumerators of another enum (alias, |, &, ^, ~) over 10 x 10 boundary values incl. uint-backed enums, read back from the emitted enum definition. Non-trivial = the reference evaluation wraps, masks a shift count, or crosses a type boundary. Distinct = expression text. The compiler declining to fold (\"not a constant expression\") is allowed and counted; division/modulus by zero must be declined; a panic is a violation.".into();
     ctx.assumptions.push("trusted: the reference evaluator in harness/src/c13.rs; operand typing follows RSSL's documented order bool < literal int < int < uint < literal float < half < float < double (enum lowest, bool remapped to int)".into());
     ctx.assumptions.push("half constants are held in single precision, as the compiler does; out-of-range float->int, INT_MIN / -1, INT_MIN % -1, unary minus on bool, and literal results that do not fit 128 bits are left unspecified (any value accepted, abort not accepted)".into());
     if !ctx.replay_tier(&check_record) {
         return;
+    }
+    {
+        let (n, f) = (ENUM_SPELLINGS.len() as u64, ENUM_FORMS.len() as u64);
+        let make = move |i: u64| json!({"kind": "enum_alias", "a": i % n, "b": (i / n) % n, "form": i / n / n});
+        ctx.run_enum("enumerators_from_enumerators", n * n * f, true, make, |i| check_record(&make(i)));
     }
     ctx.run_prop(
         "random_constant_expressions",
